@@ -48,5 +48,5 @@ ob("hdiff_sds_slabs", ["C19"], entry="h_sds_slabs", file="mfhdf/hdiff/hdiff_sds.
    bound="int8 SDS of 2..3 rows x 1 MiB (hyperslab path, one slab per row), no fill value, no attributes", **DR)
 ob("hdiff_gr_comps", ["C19"], entry="h_gr_comps", file="mfhdf/hdiff/hdiff_gr.c", unwind=14, cex_unwind=14,
    bound="int8 images of 1..2 x 1..2 pixels with 1..3 components", **DR)
-ob("hdiff_match_only", ["C19"], entry="h_match_only", file="mfhdf/hdiff/hdiff.c", unwind=6, cex_unwind=6,
+ob("hdiff_match_only", ["C19"], entry="h_match_only", file="mfhdf/hdiff/hdiff.c", unwind=6, cex_unwind=6, tier="thorough", timeout=900,  # ~4 min
    bound="at most 2 Vdata objects per file, names of 1 character", **DR)
